@@ -419,27 +419,20 @@ func c16Scenarios() []pxScenario {
 }
 
 func TestC16(t *testing.T) {
-	em := NewEmitter()
-	defer em.Close()
-	scs := c16Scenarios()
-	for idx, sc := range scs {
-		if !want(idx) {
-			continue
-		}
-		runPxScenario(t, idx, "proxy", sc, em)
+	var jobs []func(idx int, em *Emitter)
+	for _, sc := range c16Scenarios() {
+		sc := sc
+		jobs = append(jobs, func(idx int, em *Emitter) { runPxScenario(t, idx, "proxy", sc, em) })
 	}
 	// end-to-end: real clients - real Proxy - real Demux keyed by source - real Servers
-	base := len(scs)
 	for i := 0; i < proxyE2ECount(); i++ {
-		if want(base + i) {
-			runProxyE2E(t, base+i, i, em)
-		}
+		i := i
+		jobs = append(jobs, func(idx int, em *Emitter) { runProxyE2E(t, idx, i, em) })
 	}
 	// free-running stress judged by the property predicates
-	base += proxyE2ECount()
 	for i := 0; i < proxyFreeCount(); i++ {
-		if want(base + i) {
-			runProxyFree(t, base+i, i, em)
-		}
+		i := i
+		jobs = append(jobs, func(idx int, em *Emitter) { runProxyFree(t, idx, i, em) })
 	}
+	pxRunJobs(t, "TestC16", jobs)
 }
